@@ -3,3 +3,4 @@ import DafRel.Props.C02
 #print axioms DafRel.Props.C02.conformed_tree_has_same_rows
 #print axioms DafRel.Props.C02.join_of_selects_is_the_join
 #print axioms DafRel.Props.C02.join_factory_is_the_join
+#print axioms DafRel.Props.C02.sql_history_tree_sem
